@@ -102,6 +102,11 @@ def _row_names_on_path(p: Path, start: int) -> set[str]:
     return names
 
 
+def _call_args(c: ast.Call) -> list[ast.expr]:
+    """Positional and keyword argument values, in source order (a constructor argument may be passed either way)."""
+    return list(c.args) + [k.value for k in c.keywords if k.arg]
+
+
 def check(model, tier):
     run, ctx = new_run(
         "C18",
@@ -182,10 +187,10 @@ def check(model, tier):
             ok = False
             if isinstance(b, ast.Call) and (b is f0 or any(x is f0 for x in ast.walk(b))):
                 ok = True  # result of the forcing call itself (to_mapping / materialized)
-            elif isinstance(b, ast.Call) and b.args and isinstance(b.args[0], ast.Name):
-                inner = resolve_name(p, b.args[0].id)
+            elif isinstance(b, ast.Call) and _call_args(b) and isinstance(_call_args(b)[0], ast.Name):
+                inner = resolve_name(p, _call_args(b)[0].id)
                 ok = inner is f0
-            if ok and not any(src(a) in rows for a in (b.args if isinstance(b, ast.Call) else [])):
+            if ok and not any(src(a) in rows for a in (_call_args(b) if isinstance(b, ast.Call) else [])):
                 run.ok("R18.2", inst, {"forces": src(f0)[:60], "returns": src(v)[:60]})
             else:
                 run.fail("R18.2", inst, f"the {arm} arm returns `{src(v)[:60]}`, which is not the container built by its single pass over the input", fi=ex, node=p.node, details=describe(p))
